@@ -40,6 +40,7 @@ InitState ==
     parked   |-> [i \in Id |-> 0],             \* tag of the reply stored in a ready slot
     cpc      |-> "idle",                       \* idle | wantMap | send | sentwait
     cid      |-> 0,
+    closeId  |-> 0,                            \* the call that was Session::close() (0: not called); it consumes the session
     sendMode |-> "free",                       \* free | before | after  (environment)
     rxHolder |-> 0,  rxq  |-> <<>>,
     mapHolder|-> 0,  mapq |-> <<>>,
@@ -195,10 +196,15 @@ DropCaller(s) ==
   IN  IF s.mapHolder = CALLER THEN ReleaseMap(a) ELSE a
 
 (* rpc() is called: the id is consumed even when the request cannot be built *)
-CanStartRpc(s) == s.cpc = "idle" /\ s.lastId < N
+CanStartRpc(s) == s.cpc = "idle" /\ s.lastId < N /\ s.closeId = 0
 StartRpc(s, good) ==
   IF good THEN [s EXCEPT !.lastId = @ + 1, !.cid = s.lastId + 1, !.cpc = "wantMap"]
   ELSE [s EXCEPT !.lastId = @ + 1, !.cerr = @ + 1]
+
+(* Session::close(self): one more request (<close-session>) in the pipeline; the future of its reply owns the      *)
+(* session, so no call can follow it - and dropping that future is dropping a reply future like any other: the     *)
+(* reply futures that are outstanding share the request table and the receive side and still complete             *)
+StartClose(s) == [StartRpc(s, TRUE) EXCEPT !.closeId = s.lastId + 1]
 
 ---------------------------------------------------------------------------
 (* one poll() = micro steps until the future would return Pending *)
